@@ -256,3 +256,71 @@ Proof.
                Hrel (list_types_of CMap) o1 mstate0 mstate0).
     + apply (generate_oracle_unspecified (map_make o2 c (p_destname p) dv) map_render CMap c o1 o2); auto.
 Qed.
+
+(* ---------------------------------------------------------------- C08 for map *)
+From Shoot Require Import Proofs.GenSeqProofs.
+
+(* the command line enters the mapper's output only through -way and the header; an explicit -type=T refuses a type
+   without destination that the listing run skips *)
+Lemma map_cmd_sim : forall o c c' dp dv st v T,
+  c_toonly c = c_toonly c' -> c_fromonly c = c_fromonly c' -> specified c = false ->
+  sim_body map_render map_render (map_make o c dp dv st v T) (map_make o c' dp dv st v T).
+Proof.
+  intros o c c' dp dv st v T Ht Hf Hs. unfold map_make, map_make_gen.
+  cbn [all_resets rs_mfuncs rs_mtags rs_mfields rs_mctor rs_mmeth rs_msets rs_mmaps].
+  destruct (mparse_fields v "" T true []) as [[[[e u] tg] sp]|]; [|exact I].
+  destruct (mparse_fields dv (dp ++ ".") T false []) as [[[[de du] dtg] dsp]|].
+  - repeat match goal with
+           | |- context [ctor_match ?a ?b ?c0 ?d ?e0 ?f] => destruct (ctor_match a b c0 d e0 f) as [[? ?] ?]
+           end.
+    match goal with
+    | |- context [for_pairs ?t (type_match_pair ?q) ?p] => destruct (for_pairs t (type_match_pair q) p) as [[[[[? ?] ?] ?] ?] ?]
+    end.
+    repeat match goal with
+           | |- context [nil_check_write o ?fs ?sel ?pp] => destruct (nil_check_write o fs sel pp) as [? ?]
+           end.
+    cbn. split; [reflexivity|]. unfold body, map_render, mk_file. cbn. rewrite Ht, Hf. reflexivity.
+  - rewrite Hs. destruct (specified c'); exact I.
+Qed.
+
+Lemma map_nostale : forall o c dp dv st v T d s st', map_make o c dp dv st v T = MOk d s st' -> s = false.
+Proof.
+  intros o c dp dv st v T d s st' H. unfold map_make, map_make_gen in H.
+  cbn [all_resets rs_mfuncs rs_mtags rs_mfields rs_mctor rs_mmeth rs_msets rs_mmaps] in H.
+  destruct (mparse_fields v "" T true []) as [[[[e u] tg] sp]|]; [|discriminate].
+  destruct (mparse_fields dv (dp ++ ".") T false []) as [[[[de du] dtg] dsp]|]; [|destruct (specified c); discriminate].
+  repeat match type of H with
+         | context [ctor_match ?a ?b ?c0 ?d0 ?e0 ?f] => destruct (ctor_match a b c0 d0 e0 f) as [[? ?] ?]
+         end.
+  match type of H with
+  | context [for_pairs ?t (type_match_pair ?q) ?p] => destruct (for_pairs t (type_match_pair q) p) as [[[[[? ?] ?] ?] ?] ?]
+  end.
+  repeat match type of H with
+         | context [nil_check_write o ?fs ?sel ?pp] => destruct (nil_check_write o fs sel pp) as [? ?]
+         end.
+  injection H as _ <- _. reflexivity.
+Qed.
+
+(* C08, first sentence, for map (no guard): the single file of -file= / -type=* has the declarations, imports and free
+   comments of the files -type=T writes for the same types, each run in the directory as the all-in-one run found it *)
+Theorem map_aio_is_concatenation : forall ro c (cT : string -> cmd) dp dv hw disk fmap o st st' types sm,
+  (forall T, c_toonly (cT T) = c_toonly c /\ c_fromonly (cT T) = c_fromonly c) ->
+  separate c = false ->
+  confirm_types (list_types_of CMap) c o (mk_view hw disk []) = Some (types, fmap) ->
+  generate (map_make ro c dp dv) map_render (list_types_of CMap) c o hw disk st = Some sm ->
+  let fs := same_dir_files (fun c0 => map_make ro c0 dp dv) map_render cT hw disk st' types in
+  match sm with
+  | [] => fs = []
+  | [(n, m)] =>
+      a_decls m = flat_map a_decls fs /\ a_imports m = dedup (flat_map a_imports fs) /\
+      a_stray m = flat_map (fun f => strays (a_decls f)) fs /\ n = nm c hw fmap ""
+  | _ => False
+  end.
+Proof.
+  intros ro c cT dp dv hw disk fmap o st st' types sm HcT Hsep Hconf Hgen.
+  assert (Hus : specified c = false) by (unfold separate in Hsep; destruct (specified c); [discriminate | reflexivity]).
+  exact (aio_is_concat_same_dir (fun c0 => map_make ro c0 dp dv) map_render
+           (fun c0 s1 s2 v T => map_make_state_indep ro c0 dp dv s1 s2 v T) (list_types_of CMap) c cT
+           (fun T s v => map_cmd_sim ro c (cT T) dp dv s v T (eq_sym (proj1 (HcT T))) (eq_sym (proj2 (HcT T))) Hus)
+           (fun s v T d b s' => map_nostale ro c dp dv s v T d b s') hw disk fmap Hsep o st st' types sm Hconf Hgen).
+Qed.
